@@ -24,6 +24,7 @@ type Obligation struct {
 	Trivial bool // goal simplified to true syntactically
 	Must    bool // mustfail: expected NOT to be discharged
 	Cover   bool // cover: expected to be sat
+	Short   bool // expected to fail (known finding): only the short solving stages are spent on it
 	Func    string
 	Pos     string
 	// results
